@@ -231,6 +231,34 @@ class Sim:
         if kw:
             self.cmd("ctx %d %s" % (n, " ".join("%s=%s" % kv for kv in kw.items())))
 
+    def enable_stream_relay(self, chunker=None):
+        """node-to-node TCP/TLS/WS: connection attempts reach the listening node, bytes
+        written on one side arrive on the other after the latency.  chunker(bytes) ->
+        list of (extra delay, bytes) lets a scenario re-segment the stream."""
+        last = {}
+
+        def relay(sim, ev):
+            k = ev["e"]
+            if k == "tcp_connect":
+                line = "tcp_accept %s %s conn=%d" % (ev["remote"], ev["local"], ev["conn"])
+                sim.at(sim.now + sim.latency, "call", lambda s, line=line: s.cmd(line))
+            elif k == "swrite":
+                side = 0 if ev["init"] else 1
+                data = bytes.fromhex(ev["b"])
+                parts = chunker(data) if chunker else [(0, data)]
+                for delay, part in parts:
+                    line = "stream %d %d %s" % (ev["conn"], side, part.hex())
+                    # a byte stream: never overtake what was written before
+                    t = max(sim.now + sim.latency + delay, last.get((ev["conn"], side), 0))
+                    last[(ev["conn"], side)] = t
+                    sim.at(t, "call", lambda s, line=line: s.cmd(line))
+            elif k == "closed" and ev.get("kind") == 3:
+                side = 0 if ev["init"] else 1
+                line = "stream_close %d %d" % (ev["conn"], side)
+                t = max(sim.now + sim.latency, last.get((ev["conn"], side), 0))
+                sim.at(t, "call", lambda s, line=line: s.cmd(line))
+        self.on_event.append(relay)
+
     # -- time ---------------------------------------------------------------
     def _advance_to(self, t):
         if t > self.now:
